@@ -166,8 +166,18 @@ func (s *ScanMethod) ProcessPacketData(data []byte, _ *gopacket.CaptureInfo) (er
 	return
 }
 
+// validPacket reports whether the decoded layers are exactly [Ethernet] IPv4 TCP.
+// Counting layers is not enough: e.g. IP-in-IP has the same number of layers
+// but leaves the data of a previous packet in the transport layer.
 func validPacket(decoded []gopacket.LayerType) bool {
-	return len(decoded) == 3 || (len(decoded) == 2 && decoded[0] == layers.LayerTypeIPv4)
+	switch len(decoded) {
+	case 3:
+		return decoded[0] == layers.LayerTypeEthernet &&
+			decoded[1] == layers.LayerTypeIPv4 && decoded[2] == layers.LayerTypeTCP
+	case 2:
+		return decoded[0] == layers.LayerTypeIPv4 && decoded[1] == layers.LayerTypeTCP
+	}
+	return false
 }
 
 type PacketFiller struct {
